@@ -1,5 +1,6 @@
 import FluteModel.Drv.Util
 import FluteModel.BlockEnc
+import FluteModel.BlockEncWire
 /-
   Line-protocol driver of engine `benc` (see harness/engines/benc/src/main.rs for the operations).
   `benc newlegacy …` runs the model of the code BEFORE the repairs of D3/D8/D18/D21 (used once, to
@@ -8,9 +9,16 @@ import FluteModel.BlockEnc
 namespace Flute.Drv.Benc
 open Flute Flute.Fec Flute.BlockEnc
 
+/-- what the datagram needs beside the encoder's packet: the file's OTI (as admitted: Z set), transfer length, cenc -/
+structure WireCfg where
+  scheme : String
+  oti : Flute.Fti.Oti
+  tlen : Nat
+  cenc : Nat
+
 structure St where
   sess : Session
-  scheme : String
+  w : WireCfg
   dead : Bool := false
   /-- (unused since /repo 0805b7e: `Sender::new` treats `interleave_blocks = 0` as 1 - the driver clamps the window
       accordingly in `opNew`; before that commit the FDT's own encoder reached the `debug_assert` at the first read) -/
@@ -18,12 +26,20 @@ structure St where
 
 def lcgNext (x : Nat) : Nat := (x * 6364136223846793005 + 1442695040888963407) % 2^64
 
-def genBytes : Nat → Nat → List Nat
-  | _, 0 => []
-  | x, n + 1 => let x' := lcgNext x; ((x' >>> 33) % 256) :: genBytes x' n
+/-- `g:<seed>:<len>` (machine words: same values as the `Nat` formula `lcgNext`, wrapping = mod 2^64) -/
+def genBytesU : UInt64 → Nat → List Nat → List Nat
+  | _, 0, acc => acc.reverse
+  | x, n + 1, acc =>
+    let x' := x * 6364136223846793005 + 1442695040888963407
+    genBytesU x' n (((x' >>> 33) % 256).toNat :: acc)
 
-def fnv64 (bs : List Nat) : Nat :=
-  bs.foldl (fun h b => ((h ^^^ b) * 0x100000001b3) % 2^64) 0xcbf29ce484222325
+def genBytes (seed len : Nat) : List Nat := genBytesU (UInt64.ofNat seed) len []
+
+/-- FNV-1a 64, continued from state `h` -/
+def fnvFrom (h : UInt64) (bs : List Nat) : UInt64 :=
+  bs.foldl (fun h b => (h ^^^ UInt64.ofNat b) * 0x100000001b3) h
+
+def fnv64 (bs : List Nat) : Nat := (fnvFrom 0xcbf29ce484222325 bs).toNat
 
 def hexN (digits n : Nat) : String :=
   String.ofList ((List.range digits).reverse.map fun i => hexNib ((n >>> (4 * i)) % 16))
@@ -57,16 +73,22 @@ def parseSched (s : String) (l e : Nat) (transfers : Nat) : Option (List Nat) :=
 
 def opaqueRepair : Nat → Nat → List Bytes → Nat → Bytes := fun _ _ _ _ => []
 
-/-- (codec, payload-length cap, max number of source blocks, OTI constructor accepts) -/
-def schemeOf (legacy : Bool) (name : String) (e b p : Nat) : Option (Codec × Nat × Nat × Bool) :=
-  let _ := legacy
+/-- (codec, the `Oti` the harness builds with flute's constructors, do the constructors accept) -/
+def schemeOf (name : String) (e b p : Nat) : Option (Codec × Flute.Admission.Oti × Bool) :=
+  let mk (fec : Flute.Admission.Fec) (sc : Option Flute.Admission.SchemeSpecific) : Flute.Admission.Oti :=
+    { fec := fec, inst := 0, maxSbl := b, esl := e, parity := p, scheme := sc }
   match name with
-  | "nocode" => some (noCode, 0xFFFFFFFFFFFF, 65535, decide (e ≤ 65535 ∧ b ≤ 65535))
-  | "rs28" => some (reedSolomon opaqueRepair, 0xFFFFFFFFFFFF, 255, decide (e ≤ 65535 ∧ b ≤ 255 ∧ p ≤ 255 ∧ b + p ≤ 255))
-  | "rs28us" => some (reedSolomon opaqueRepair, 0xFFFFFFFFFFFF, 0xFFFFFFFF, decide (e ≤ 65535 ∧ b ≤ 65535 ∧ p ≤ 65535 ∧ b + p ≤ 65535))
-  | "raptorq" => some (raptorQ opaqueRepair, 0xFFFFFFFFFFF, 255, decide (e ≤ 65535 ∧ b ≤ 65535 ∧ p ≤ 65535))
-  | "raptor" => some (raptorLegacy opaqueRepair, 0xFFFFFFFFFFFF, 65535, decide (e ≤ 65535 ∧ b ≤ 65535 ∧ p ≤ 65535))
+  | "nocode" => some (noCode, mk .noCode none, decide (e ≤ 65535 ∧ b ≤ 65535))
+  | "rs28" => some (reedSolomon opaqueRepair, mk .rs28 none, decide (e ≤ 65535 ∧ b ≤ 255 ∧ p ≤ 255 ∧ b + p ≤ 255))
+  | "rs28us" => some (reedSolomon opaqueRepair, mk .rs28us none, decide (e ≤ 65535 ∧ b ≤ 65535 ∧ p ≤ 65535 ∧ b + p ≤ 65535))
+  | "raptorq" => some (raptorQ opaqueRepair, mk .raptorq (some (.raptorq 0 1 1)), decide (e ≤ 65535 ∧ b ≤ 65535 ∧ p ≤ 65535))
+  | "raptor" => some (raptorLegacy opaqueRepair, mk .raptor (some (.raptor 0 1 1)), decide (e ≤ 65535 ∧ b ≤ 65535 ∧ p ≤ 65535))
   | _ => none
+
+/-- the sender of every case: one priority queue (0), FDT not complete, the library's default OTI (No-Code 1424 × 64) -/
+def senderCfg : Flute.Admission.Cfg :=
+  { queues := [0], complete := false,
+    oti := { fec := .noCode, inst := 0, maxSbl := 64, esl := 1424, parity := 0, scheme := none } }
 
 def opNew (legacy : Bool) (a : List String) : Option St × String :=
   match a with
@@ -74,9 +96,9 @@ def opNew (legacy : Bool) (a : List String) : Option St × String :=
     match nats? [e, b, p, win, maxtc, allow, car], parseObj obj with
     | some [e, b, p, win, maxtc, allow, car], some obj =>
       if !(cenc == "null" || cenc == "zlib" || cenc == "deflate" || cenc == "gzip") then (none, "bad-op") else
-      match schemeOf legacy scheme e b p with
+      match schemeOf scheme e b p with
       | none => (none, "bad-op")
-      | some (codec, cap, maxSbn, otiOk) =>
+      | some (codec, admOti, otiOk) =>
         if !otiOk then (none, "bad-oti") else
         if win > 255 ∨ maxtc ≥ 2^32 then (none, "bad-op") else
         let te? : Option (List Nat) := if te == "=" then some obj else unhex te
@@ -137,35 +159,56 @@ def opNew (legacy : Bool) (a : List String) : Option St × String :=
         | none => (none, "ERR create")
         | some source =>
           let l := source.len
-          -- FileDesc::new
-          if l > maxTransferLength cap maxSbn e b then (none, "ERR add") else
-          -- D21 / D25 (repaired): Reed-Solomon GF(2^8) needs 1 ≤ parity and B + parity ≤ 256
-          let aLarge := match Partition.blockPartitioning b l e with
-            | .ok (aL, _, _, _) => aL
-            | .error _ => 0
-          if !legacy && (scheme == "rs28" || scheme == "rs28us") && (p = 0 ∨ aLarge + p > 256) then (none, "ERR add") else
-          -- /repo 29615e2: source blocks larger than the code supports are refused (Raptor K ≤ 8192, RaptorQ K ≤ 56403)
-          if !legacy && ((scheme == "raptor" && aLarge > 8192) || (scheme == "raptorq" && aLarge > 56403)) then (none, "ERR add") else
+          -- `Sender::add_object`: agent toi's reference admission predicate (Admission.lean, tied to the real add_object by
+          -- engine `toi`, linked to `Accepts` by Props/AdmissionLink.lean `admitted_block_limits`).  legacy = the tree before
+          -- D21 / D25 / K_max: only the transfer-length check existed
+          let obj : Flute.Admission.Obj :=
+            { transferLength := l, oti := some admOti, location := [], contentType := [], md5 := none, etag := none,
+              groups := none, toi := .none }
+          let adm : Rs (Except Flute.Admission.Refuse Flute.Admission.Oti) :=
+            if legacy then
+              match Flute.Admission.maxTransferLength admOti with
+              | .error w => .error w
+              | .ok mtl => if l > mtl then .ok (.error .tooLong) else .ok (.ok admOti)
+            else
+              match Flute.Admission.accepts senderCfg 0 obj with
+              | .error w => .error w
+              | .ok (.error r) => .ok (.error r)
+              | .ok (.ok a) => .ok (.ok a.oti)
+          match adm with
+          | .error _ => (none, "PANIC")
+          | .ok (.error _) => (none, "ERR add")
+          | .ok (.ok fileOti) =>
           let P : Params := { codec := codec, e := e, b := b, p := p, window := (if win = 0 then 1 else win), len := l, legacy := legacy }
-          (some { sess := { P := P, src := source, maxtc := maxtc, carousel := car == 1, allowStop := allow == 1 }, scheme := scheme,
+          (some { sess := { P := P, src := source, maxtc := maxtc, carousel := car == 1, allowStop := allow == 1 },
+                  w := { scheme := scheme, oti := Flute.BlockEncWire.ftiOti fileOti true, tlen := l, cenc := cencN },
                   fdtPanics := false },
            s!"ok {l}")
     | _, _ => (none, "bad-op")
   | _ => (none, "bad-op")
 
-def showPkt (scheme : String) (p : Pkt) : String :=
+/-- one packet: (SBN, ESI, length and FNV-64 of a source payload, source block length for FEC ID 129, A, B) and the FNV-64 of
+    the DATAGRAM `Alc.newAlcPkt file.oti 0 tsi (toAlc p)` (TSI 1, TOI 1, CCI 0) - whole for source symbols, header +
+    extensions + FEC payload ID for repair symbols (their payload is the FEC library's) -/
+def showPkt (w : WireCfg) (p : Pkt) : String :=
   let len := if p.isSource then toString p.payload.length else "-"
   let h := if p.isSource then hexN 16 (fnv64 p.payload) else "r"
-  let sbl := if scheme == "rs28us" then toString p.sbl else "-"
+  let sbl := if w.scheme == "rs28us" then toString p.sbl else "-"
   let (a, b) := alcFlags p
-  s!"{p.sbn},{p.esi},{len},{h},{sbl},{if a then 1 else 0},{if b then 1 else 0}"
+  -- `datagram = datagramHead ++ payload` (BlockEncWire.datagram_eq_head_append): the hash is continued over the payload
+  let dh := match Flute.BlockEncWire.datagramHead w.oti 1 1 w.tlen w.cenc false p with
+    | .ok head =>
+      let st := fnvFrom 0xcbf29ce484222325 head
+      hexN 16 (if p.isSource then fnvFrom st p.payload else st).toNat
+    | .error _ => "ERRPKT"
+  s!"{p.sbn},{p.esi},{len},{h},{sbl},{if a then 1 else 0},{if b then 1 else 0},{dh}"
 
 /-- read until something that is not a packet; returns the joined observation -/
-def readAll (scheme : String) : Nat → Session → List String → Bool × Session × List String
+def readAll (w : WireCfg) : Nat → Session → List String → Bool × Session × List String
   | 0, x, acc => (true, x, "TOO-MANY" :: acc)
   | n + 1, x, acc =>
     match x.read with
-    | (.pkt p, x') => readAll scheme n x' (showPkt scheme p :: acc)
+    | (.pkt p, x') => readAll w n x' (showPkt w p :: acc)
     | (.none, x') => (false, x', "none" :: acc)
     | (.panic, x') => (true, x', "PANIC" :: acc)
     | (.hang, x') => (true, x', "HANG" :: acc)
@@ -181,7 +224,7 @@ def step (st : Option St) (args : List String) : Option St × String :=
       if s.dead then (st, "dead") else
       if s.fdtPanics then (some { s with dead := true }, "PANIC") else
       match s.sess.read with
-      | (.pkt p, x') => (some { s with sess := x' }, showPkt s.scheme p)
+      | (.pkt p, x') => (some { s with sess := x' }, showPkt s.w p)
       | (.none, x') => (some { s with sess := x' }, "none")
       | (.panic, x') => (some { s with sess := x', dead := true }, "PANIC")
       | (.hang, x') => (some { s with sess := x', dead := true }, "HANG")
@@ -191,7 +234,7 @@ def step (st : Option St) (args : List String) : Option St × String :=
     | some s =>
       if s.dead then (st, "dead") else
       if s.fdtPanics then (some { s with dead := true }, "PANIC") else
-      let (dead, x', acc) := readAll s.scheme 200001 s.sess []
+      let (dead, x', acc) := readAll s.w 200001 s.sess []
       (some { s with sess := x', dead := dead }, joinSp acc.reverse)
   | ["remove"] =>
     match st with
